@@ -16,8 +16,8 @@ def main():
             continue
         m = json.load(open(mp))
         files = ", ".join(sorted({l.split("|")[0].strip().replace("src/htstabilizer/", "") for l in m.get("files_changed", []) if "|" in l}))
-        caught = ", ".join("%s (%s)" % (c, v.get("tier", "quick")) for c, v in sorted(m.get("checks", {}).items()) if v.get("caught"))
-        missed = ", ".join(c for c, v in sorted(m.get("checks", {}).items()) if not v.get("caught"))
+        caught = ", ".join("%s (%s)" % (c.split(":")[0], v.get("tier", "quick")) for c, v in sorted(m.get("checks", {}).items()) if v.get("caught"))
+        missed = ", ".join("%s (%s)" % (c.split(":")[0], v.get("tier", "quick")) for c, v in sorted(m.get("checks", {}).items()) if not v.get("caught"))
         ts = m.get("test_suite_with_change", {})
         conf = "yes" if m.get("confirmed") else "NO (%s)" % (ts.get("now_failing_or_missing") or "demo")
         print("| %s | %s | %s | %s | %s | %s%s |" % (name, m.get("property"), files, m.get("needs_to_manifest", "see notes.md"), conf, caught or "-",
